@@ -41,8 +41,8 @@ KERNELS = {
         _k(name="glen_then", file=BASE, func="Graph.__len__", loc=("return", 0), ty="Int", rename={"shape[0]": "shape0"}, params=["shape0"]),
         _k(name="glen_else", file=BASE, func="Graph.__len__", loc=("return", 1), ty="Int", params=[]),
         _k(name="ggetitem_unbatched", file=BASE, func="Graph.__getitem__", loc=("iftest", 0), result="Bool", ty="Int", opaque={"len(shape)": "ndim"}, params=["ndim"]),
-        _k(name="ggetitem_leaf", file=BASE, func="Graph.__getitem__", loc=("lambda", 0), tyvars=["C"], ty="C", rename={"v[val]": "v_at_val"}, params=["v_at_val"]),
-        _k(name="rgetitem_leaf", file=BASE, func="EpisodeRecord.__getitem__", loc=("lambda", 0), tyvars=["C"], ty="C", rename={"x[val]": "x_at_val"}, params=["x_at_val"]),
+        _k(name="ggetitem_leaf", file=BASE, func="Graph.__getitem__", loc=("lambda", 0), tyvars=["C"], types=dict(v_at_val="C"), rtype="C", rename={"v[val]": "v_at_val"}, params=["v_at_val"]),
+        _k(name="rgetitem_leaf", file=BASE, func="EpisodeRecord.__getitem__", loc=("lambda", 0), tyvars=["C"], types=dict(x_at_val="C"), rtype="C", rename={"x[val]": "x_at_val"}, params=["x_at_val"]),
         # ---- Graph.filter
         _k(name="gfilter_flag", file=BASE, func="Graph.filter", loc=("for_if", 0, 0), result="Bool", params=["filter_edges"]),
         _kk(name="gfilter_in_nodes_e", file=BASE, func="Graph.filter", loc=("for_if", 1, 0), result="Bool", types=dict(n1="κ", nodes=NAMES), params=["n1", "nodes"]),
@@ -68,21 +68,21 @@ KERNELS = {
         _kk(name="rfilter_keep_input", file=BASE, func="EpisodeRecord.filter", loc=("comp_if", 1, 0), result="Bool", types=dict(n1="κ", n2="κ", connections=CONNS),
             params=["n1", "n2", "connections"]),
         # ---- EpisodeRecord.to_graph: which record fields become vertex / edge columns, and the edge key
-        _k(name="tg_vertex_seq", file=BASE, func="EpisodeRecord.to_graph", loc=("kwarg", "Vertex", 0, "seq"), tyvars=["C"], ty="C",
+        _k(name="tg_vertex_seq", file=BASE, func="EpisodeRecord.to_graph", loc=("kwarg", "Vertex", 0, "seq"), tyvars=["C"], types=dict(steps_seq="C"), rtype="C",
            rename={"v.steps.seq": "steps_seq"}, params=["steps_seq"]),
-        _k(name="tg_vertex_ts_start", file=BASE, func="EpisodeRecord.to_graph", loc=("kwarg", "Vertex", 0, "ts_start"), tyvars=["C"], ty="C",
+        _k(name="tg_vertex_ts_start", file=BASE, func="EpisodeRecord.to_graph", loc=("kwarg", "Vertex", 0, "ts_start"), tyvars=["C"], types=dict(steps_ts_start="C"), rtype="C",
            rename={"v.steps.ts_start": "steps_ts_start"}, params=["steps_ts_start"]),
-        _k(name="tg_vertex_ts_end", file=BASE, func="EpisodeRecord.to_graph", loc=("kwarg", "Vertex", 0, "ts_end"), tyvars=["C"], ty="C",
+        _k(name="tg_vertex_ts_end", file=BASE, func="EpisodeRecord.to_graph", loc=("kwarg", "Vertex", 0, "ts_end"), tyvars=["C"], types=dict(steps_ts_end="C"), rtype="C",
            rename={"v.steps.ts_end": "steps_ts_end"}, params=["steps_ts_end"]),
-        _k(name="tg_seq_in", file=BASE, func="EpisodeRecord.to_graph", loc=("assign_unique", "seq_in"), tyvars=["C"], ty="C",
+        _k(name="tg_seq_in", file=BASE, func="EpisodeRecord.to_graph", loc=("assign_unique", "seq_in"), tyvars=["C"], types=dict(messages_seq_in="C"), rtype="C",
            rename={"i.messages.seq_in": "messages_seq_in"}, params=["messages_seq_in"]),
-        _k(name="tg_seq_out", file=BASE, func="EpisodeRecord.to_graph", loc=("assign_unique", "seq_out"), tyvars=["C"], ty="C",
+        _k(name="tg_seq_out", file=BASE, func="EpisodeRecord.to_graph", loc=("assign_unique", "seq_out"), tyvars=["C"], types=dict(messages_seq_out="C"), rtype="C",
            rename={"i.messages.seq_out": "messages_seq_out"}, params=["messages_seq_out"]),
-        _k(name="tg_ts_recv", file=BASE, func="EpisodeRecord.to_graph", loc=("assign_unique", "ts_recv"), tyvars=["C"], ty="C",
+        _k(name="tg_ts_recv", file=BASE, func="EpisodeRecord.to_graph", loc=("assign_unique", "ts_recv"), tyvars=["C"], types=dict(messages_ts_recv="C"), rtype="C",
            rename={"i.messages.ts_recv": "messages_ts_recv"}, params=["messages_ts_recv"]),
-        _k(name="tg_edge_seq_out", file=BASE, func="EpisodeRecord.to_graph", loc=("kwarg", "Edge", 0, "seq_out"), tyvars=["C"], ty="C", params=["seq_out", "seq_in", "ts_recv"]),
-        _k(name="tg_edge_seq_in", file=BASE, func="EpisodeRecord.to_graph", loc=("kwarg", "Edge", 0, "seq_in"), tyvars=["C"], ty="C", params=["seq_out", "seq_in", "ts_recv"]),
-        _k(name="tg_edge_ts_recv", file=BASE, func="EpisodeRecord.to_graph", loc=("kwarg", "Edge", 0, "ts_recv"), tyvars=["C"], ty="C", params=["seq_out", "seq_in", "ts_recv"]),
+        _k(name="tg_edge_seq_out", file=BASE, func="EpisodeRecord.to_graph", loc=("kwarg", "Edge", 0, "seq_out"), tyvars=["C"], types=dict(seq_out="C", seq_in="C", ts_recv="C"), rtype="C", params=["seq_out", "seq_in", "ts_recv"]),
+        _k(name="tg_edge_seq_in", file=BASE, func="EpisodeRecord.to_graph", loc=("kwarg", "Edge", 0, "seq_in"), tyvars=["C"], types=dict(seq_out="C", seq_in="C", ts_recv="C"), rtype="C", params=["seq_out", "seq_in", "ts_recv"]),
+        _k(name="tg_edge_ts_recv", file=BASE, func="EpisodeRecord.to_graph", loc=("kwarg", "Edge", 0, "ts_recv"), tyvars=["C"], types=dict(seq_out="C", seq_in="C", ts_recv="C"), rtype="C", params=["seq_out", "seq_in", "ts_recv"]),
         _kk(name="tg_edge_key", file=BASE, func="EpisodeRecord.to_graph", loc=("subscript_store", "edges", 0), types=dict(n1="κ", n2="κ"), rtype="κ × κ", params=["n1", "n2"]),
         # ---- to_networkx_graph
         _k(name="nx_vertex_zip", file=UTILS, func="to_networkx_graph", loc=("foriter", 2), result="List", elem="α", rtype="List (α × α × α)",
